@@ -112,7 +112,10 @@ def apply_config(init, config, dict_candidates=None):
     out = dict(init)
     for p, v in (config or {}).items():
         if "v" in v:
-            out[p] = v["v"]
+            val = v["v"]
+            if isinstance(val, dict) and "__ndarray__" in val:
+                val = np.array(val["__ndarray__"], dtype=val.get("dtype", "float64"))
+            out[p] = val
         elif "dict" in v:
             out[p] = dict((dict_candidates or {}).get(p, {}))
     return out
